@@ -36,7 +36,7 @@ INFO = {
 
 def plan(tier, seed):
     if tier == 'quick':
-        return [{'kind': 'compose', 'n': 40} for _ in range(4)] + [{'kind': 'minc', 'n': 25} for _ in range(2)]
+        return [{'kind': 'compose', 'n': 60} for _ in range(10)] + [{'kind': 'minc', 'n': 30} for _ in range(4)]
     return [{'kind': 'compose', 'n': 300} for _ in range(16)] + [{'kind': 'minc', 'n': 60} for _ in range(16)]
 
 
@@ -224,7 +224,9 @@ def gen_op(ctx, grid, geo, desc):
     fresh = []
     for i in idx:
         n = 'W%s%s%02d' % (rng.choice('ABCDEFGH'), rng.choice('ABCDEFGH'), rng.randint(10, 99))
-        while n in fresh:
+        # fresh: neither given out in this map nor carried by any block of the grid (an earlier rename of
+        # the same case may have introduced it) -- a colliding map is outside the documented precondition
+        while n in fresh or n in grid.block:
             n = 'W%s%s%02d' % (rng.choice('ABCDEFGH'), rng.choice('ABCDEFGH'), rng.randint(10, 99))
         fresh.append(n)
     return {'op': 'rename', 'map': [[i, n] for i, n in zip(idx, fresh)]}
@@ -264,7 +266,12 @@ def run_case(ctx, case):
         sig = map_signature(sig, mp)
         ctx.count('signature_comparisons')
         ctx.evaluated()
-        if not compare(ctx, sig, signature(grid), case, 'after:' + op['op']):
+        try:
+            sig_now = signature(grid)
+        except HarnessError as e:
+            import json
+            raise HarnessError('%s after %s; case %s' % (e, op['op'], json.dumps(case, default=str)[:3000]))
+        if not compare(ctx, sig, sig_now, case, 'after:' + op['op']):
             return nrev_v
     if case.get('roundtrip'):
         t2d = R.t2data
